@@ -28,8 +28,34 @@ type C19Case struct {
 const c19MaxK = 64
 
 func genC19(t *rapid.T) any {
-	kind := rapid.SampledFrom([]string{"fn", "fn", "fn", "fn", "type", "raise", "selector"}).Draw(t, "kind")
+	kind := rapid.SampledFrom([]string{"fn", "fn", "fn", "fn", "type", "raise", "selector", "aggdata"}).Draw(t, "kind")
 	c := &C19Case{Kind: kind}
+	if kind == "aggdata" {
+		// a type error that sits in the data: a numeric column holds, in one row, a value SUM / AVG cannot add up
+		n := rapid.IntRange(1, 7).Draw(t, "ad.rows")
+		bad := rapid.IntRange(0, n-1).Draw(t, "ad.bad")
+		rows := []any{}
+		for i := 0; i < n; i++ {
+			var v any = rapid.SampledFrom([]float64{1.5, 2, -3, 0, 10}).Draw(t, fmt.Sprintf("ad.v%d", i))
+			if i == bad {
+				v = rapid.SampledFrom([]any{"oops", "", true, map[string]any{"a": 1.0}, []any{1.0}, "12x"}).Draw(t, "ad.badval")
+			} else if rapid.IntRange(0, 5).Draw(t, fmt.Sprintf("ad.null%d", i)) == 0 {
+				v = nil
+			}
+			rows = append(rows, map[string]any{"id": float64(i), "k": rapid.SampledFrom([]string{"a", "b"}).Draw(t, fmt.Sprintf("ad.k%d", i)), "v": v})
+		}
+		c.W = &WideQ{Doc: map[string]any{"t": rows}, Construct: "aggdata"}
+		fn := rapid.SampledFrom([]string{"SUM", "AVG"}).Draw(t, "ad.fn")
+		where := ""
+		if rapid.IntRange(0, 3).Draw(t, "ad.exclude") == 0 {
+			where = fmt.Sprintf(" WHERE id != %d", bad)
+			c.RaiseProb = "excluded"
+		}
+		c.RaiseSQL = fmt.Sprintf(rapid.SampledFrom([]string{"SELECT %[1]s(v) AS s FROM t%[2]s", "SELECT k, %[1]s(v) AS a FROM t%[2]s GROUP BY k", "SELECT k FROM t%[2]s GROUP BY k HAVING %[1]s(v) > 0 OR COUNT(*) > 0",
+			"SELECT * FROM (SELECT %[1]s(v) AS s FROM t%[2]s) x", "WITH c AS (SELECT %[1]s(v) AS a FROM t%[2]s) SELECT * FROM c", "SELECT %[1]s(v) AS s FROM t%[2]s UNION ALL SELECT id AS s FROM t",
+			"SELECT id FROM t UNION ALL SELECT %[1]s(v) AS id FROM t%[2]s", "SELECT COUNT(*) AS n, %[1]s(v) AS s, MAX(id) AS m FROM t%[2]s", "SELECT id, (SELECT %[1]s(v) AS s FROM `<-t`%[2]s) AS sb FROM t"}).Draw(t, "ad.form"), fn, where)
+		return c
+	}
 	if kind == "selector" {
 		c.BadSel = rapid.SampledFrom([]string{"nokey[(0:1:{N})]", "nokey[(1:x{N})]", "nokey::[(1:x{N})]", "{ITEMS}[(0:1:{N})]", "{K}[(y{N}:2)]", "{ITEMS}::[(0:1:{N})]"}).Draw(t, "badselector")
 	}
@@ -107,6 +133,9 @@ func checkC19(c *C19Case) Result {
 	}
 	if c.Kind == "raise" {
 		return checkC19Raise(c)
+	}
+	if c.Kind == "aggdata" {
+		return checkC19AggData(c)
 	}
 	w := c.W
 	ms := w.markers()
@@ -441,4 +470,42 @@ func init() {
 		Quick:    1200,
 		Thorough: 60000,
 	})
+}
+
+// checkC19AggData: SUM / AVG over a column that holds one value they cannot add up (a string, a boolean, an
+// object, an array) must fail - wherever that value sits among the rows - and succeed when WHERE excludes the row.
+func checkC19AggData(c *C19Case) Result {
+	res := Result{Labels: []string{"construct:aggdata", "kind:aggdata"}}
+	doc := val.CopyMap(c.W.Doc)
+	out := Run(doc, c.RaiseSQL, Opts{})
+	res.Execs++
+	ctx := fmt.Sprintf("%s over %s", c.RaiseSQL, val.JSON(c.W.Doc["t"]))
+	if out.Panic != "" {
+		res.Violation = ctx + "\n  panic escaped: " + out.Panic
+		return res
+	}
+	if c.RaiseProb == "excluded" {
+		res.Labels = append(res.Labels, "aggdata:offending-row-excluded")
+		if !out.OK() {
+			res.Violation = ctx + "\n  WHERE excludes the row with the non-numeric value, but the query fails: " + out.Describe()
+		}
+		return res
+	}
+	res.NonTrivial = true
+	res.Labels = append(res.Labels, "aggdata:must-fail")
+	if out.OK() {
+		res.Violation = ctx + "\n  the aggregate ranges over a value it cannot add up, but Exec returned " + val.JSON(out.Rows)
+		return res
+	}
+	if out.ErrRows > 0 {
+		res.Violation = fmt.Sprintf("%s\n  returned an error together with %d rows", ctx, out.ErrRows)
+		return res
+	}
+	after := Run(doc, "SELECT * FROM t", Opts{})
+	pristine := Run(val.CopyMap(c.W.Doc), "SELECT * FROM t", Opts{})
+	res.Execs += 2
+	if !sameOut(after, pristine, false) {
+		res.Violation = fmt.Sprintf("%s\n  after this failure SELECT * FROM t on the same input returns %s, on a pristine copy %s", ctx, after.Describe(), pristine.Describe())
+	}
+	return res
 }
